@@ -180,9 +180,6 @@ func VerifH_C10_Stream() {
 		vAssert(got[i] == want[i], "exactly-the-readable-documents-in-order")
 	}
 	vAssert(!acp.badArgs, "acp-asked-with-requester-policy-resource-and-read-permission")
-	if !hasPolicy {
-		vAssert(acp.calls == 0, "no-acp-call-without-policy")
-	}
 	vObserve("n", len(got))
 }
 
